@@ -147,6 +147,13 @@ def generate(seed, tier="quick", mode=None, child=False, **kw):
     if nosalt:
         o["salt"] = None
     dims = [r.choice(DIMS)] if r.random() < 0.7 else r.sample(DIMS, r.randint(2, 4))
+    odd_salt = o["salt"] is not None and (o["salt"] == "" or o["salt"][0] not in G.J9_ALPHA)
+    if odd_salt and o["pwd"]:
+        # the failing path of $9$ secrets under such a salt must be just as repeatable as the normal one
+        secrets = GC.gen_secrets(r, r.randint(1, 3), classes=["j9p", "j9p", "c9", "text"], words=o["words"] or ())
+        files = [{"path": pth, "lines": GC.gen_lines(r, ctx, secrets, o, r.randint(1, 8))} for pth in paths]
+        if "set_order" not in dims:
+            dims = ["set_order"] + dims[:1]
     k1 = GC.gen_knobs(r)
     k2 = GC.gen_knobs(r)
     k2["listing_key"] = k1["listing_key"]          # listing order is part of the input here
